@@ -9,6 +9,26 @@ A local whose address is taken mutably, or that is assigned in any other way, be
 KEEP_VARIANT = ("map_err", "map", "as_ref", "as_mut", "as_deref", "cloned", "copied", "inspect", "inspect_err")
 
 
+def read_place(store, place):
+    """abstract value of a place: follows `as Variant#i` / `.k` projections into a known aggregate"""
+    v = store.get(place.l)
+    i = 0; p = place.p
+    while v is not None and i < len(p):
+        e = p[i]
+        if e.startswith("as "):
+            try: want = int(e.split("#")[1])
+            except (IndexError, ValueError): return None
+            if v[0] != "var" or v[1] != want: return None
+            i += 1; continue
+        if e.startswith("."):
+            try: k = int(e[1:].split("#")[0])
+            except ValueError: return None
+            if v[0] != "var" or len(v) < 3 or v[2] is None or k >= len(v[2]): return None
+            v = v[2][k]; i += 1; continue
+        return None
+    return v
+
+
 def step_stmt(store, s):
     if s.kind == "assign":
         lhs = s.lhs
@@ -21,11 +41,11 @@ def step_stmt(store, s):
             o = s.ops[0]
             if o.is_const:
                 if o.cint() is not None: val = ("int", o.cint())
-            elif o.place is not None and not o.place.p: val = store.get(o.place.l)
+            elif o.place is not None: val = read_place(store, o.place)
         elif s.rv == "agg" and isinstance(s.agg, dict) and "vidx" in s.agg and s.agg.get("adt"):
-            val = ("var", s.agg["vidx"])
-        elif s.rv == "discr" and s.rplace is not None and not s.rplace.p:
-            v = store.get(s.rplace.l)
+            val = ("var", s.agg["vidx"], tuple((("int", o.cint()) if o.is_const and o.cint() is not None else None) if o.is_const else read_place(store, o.place) for o in s.ops))
+        elif s.rv == "discr" and s.rplace is not None:
+            v = read_place(store, s.rplace)
             if v is not None and v[0] == "var": val = ("int", v[1])
         elif s.rv in ("ref", "rawptr") and s.rplace is not None and s.bk and "mut" in str(s.bk).lower() and not s.rplace.p:
             if s.rplace.l in store:
@@ -55,14 +75,15 @@ def step_term(store, t):
         if a is not None and a[0] == "var":
             self_ty = t.callee.impl_self or ""
             if n == "branch" and "Try" in (t.callee.path + str(t.callee.trait)):
-                if "Result" in self_ty: val = ("var", 0 if a[1] == 0 else 1)          # Ok -> Continue, Err -> Break
-                elif "Option" in self_ty: val = ("var", 0 if a[1] == 1 else 1)        # Some -> Continue, None -> Break
+                pay = a[2] if len(a) > 2 else None
+                if "Result" in self_ty: val = ("var", 0, pay) if a[1] == 0 else ("var", 1, (("var", 1, pay),))     # Ok(v) -> Continue(v), Err(e) -> Break(Err(e))
+                elif "Option" in self_ty: val = ("var", 0, pay) if a[1] == 1 else ("var", 1, (("var", 0, ()),))    # Some(v) -> Continue(v), None -> Break(None)
             elif n in KEEP_VARIANT and ("Result" in self_ty or "Option" in self_ty) and "std::" in t.callee.path:
                 val = a
     if not d.p and not t.callee.indirect and t.callee.name == "from_residual":
         self_ty = t.callee.impl_self or ""
-        if "Result" in self_ty: val = ("var", 1)
-        elif "Option" in self_ty: val = ("var", 0)
+        if "Result" in self_ty: val = ("var", 1, None)
+        elif "Option" in self_ty: val = ("var", 0, ())
     if d.p: return store
     if val is not None:
         store = dict(store); store[d.l] = val
@@ -92,7 +113,8 @@ def refine_on_edge(body, du, store, src, lab, dst):
     if len(ds) == 1 and ds[0][0] == "stmt":
         s = ds[0][1]
         if s.kind == "assign" and s.rv == "discr" and s.rplace is not None and not s.rplace.p and s.bb == src:
-            store[s.rplace.l] = ("var", lab)
+            old = store.get(s.rplace.l)
+            if not (old is not None and old[0] == "var" and old[1] == lab): store[s.rplace.l] = ("var", lab, None)
     return store
 
 
